@@ -158,3 +158,12 @@ Print Assumptions C15_finalize_is_creation_unbounded.
 Theorem C15_no_ts_ancestor_decidable : forall d, no_ts_ancestor_b d = true -> no_ts_ancestor d.
 Proof. exact no_ts_ancestor_b_sound. Qed.
 Print Assumptions C15_no_ts_ancestor_decidable.
+
+(* ---- T17: the sources this property rests on keep no state outside the objects the model has (no static locals
+   or mutable globals in C, no class-level / module-level containers, `global` rebinding or cache decorators in
+   Python): the list of such sites, regenerated from the sources on every run, is empty *)
+From Coq Require Import String List.
+From DRF Require Import Gen.StateSites Proofs.StateSitesProofs.
+Theorem C15_no_state_outside_the_modelled_objects : state_sites_listing = @nil string /\ state_sites_events = @nil string.
+Proof. repeat split; first [exact no_state_outside_objects_listing | exact no_state_outside_objects_events]. Qed.
+Print Assumptions C15_no_state_outside_the_modelled_objects.
